@@ -66,6 +66,9 @@ def main():
 
     for c in checks:
         key = "%s@%s@%s" % (c, repo_head, vhash)
+        prev = [k for k in base if k.startswith("%s@%s@" % (c, repo_head)) and base[k] == []]
+        if key not in base and prev:            # the unchanged tree was clean under an earlier version of the same check
+            base[key] = []
         if key not in base:                     # violation classes of the unchanged tree (ignored below)
             sh("git checkout -- .", EVAL)
             base[key] = run(c)[1]
